@@ -178,6 +178,7 @@ SWEEP_PART_OPS = (
     + [[["nonascii", k]] for k in (0, 1, 2)]
     + [[["breakattr", k]] for k in (0, 1, 2)]
     + [[["kwcall", k]] for k in (0, 1)]
+    + [[["insetlist", k]] for k in (0, 1)]
     + [[["dictsplat", k]] for k in (0, 1)]
     + [[["sameline", k]] for k in (0, 1, 2)]
     + [[["tuplerhs", k, s_]] for k in (0, 1) for s_ in ("tuple", "lambda")]
